@@ -349,8 +349,13 @@ def summarise(run, dom, body, where='', collect=False, parallel=None):
     run.frames[-1].env = envi
     try:
         if inv is not None:
-            inv.assume_at(run, sti, ik)
+            inv.init(run, st0, env0)
+            inv.assume_at(run, sti, envi)
         ends = run.explore(sti, lambda: body(dom.elem(ik)))
+        if inv is not None:
+            for kind_, payload_, st1_, pctx_, env1_ in ends:
+                if kind_ == 'ok':
+                    inv.preserve(run, st1_, env1_)
     finally:
         run.frames[-1].env = saved_env
     log_end = len(smt.FRESH_LOG)
@@ -358,35 +363,37 @@ def summarise(run, dom, body, where='', collect=False, parallel=None):
     # ---- generalise the iteration
     i_ = bound('i', Int)
     body_consts = [c for c in smt.FRESH_LOG[log_start:log_end]]
-    subs = [(ik, i_)]
-    for c in body_consts:
-        try:
-            f = fresh_fn(str(c), Int, c.sort())
-        except z3.Z3Exception:
-            continue
-        subs.append((c, f(i_)))
+    body_by_name = {c.decl().name(): c for c in body_consts}
+    gen_fns = {}        # name -> (const, function of the iteration index), created on demand
+
+    def subs_for(t):
+        pairs = [(ik, i_)]
+        for nm in smt._symbols(t):
+            c = body_by_name.get(nm)
+            if c is None:
+                continue
+            if nm not in gen_fns:
+                gen_fns[nm] = (c, fresh_fn(nm, Int, c.sort())(i_))
+            pairs.append(gen_fns[nm])
+        return pairs
 
     def gen(t, at=None, key=None):
         """t with the iteration index generalised; at: index term to read it at; key: when reading at the
         iteration of arm `key`, the iterated element is that arm itself."""
         if key is not None and keyterm is not None:
             t = z3.substitute(t, (keyterm, key))
-        r = z3.substitute(t, *subs)
+        r = z3.substitute(t, *subs_for(t))
         if at is not None:
             r = z3.substitute(r, (i_, at))
         return r
 
     # lifted lambdas created inside the body: their definitions, generalised over the iteration
     lifted_defs = []
-    for c in body_consts:
-        d = smt.DEFS.get(str(c))
-        if d is not None:
-            vs, bd = d
-            cf = [t for (cc, t) in subs if z3.eq(cc, c)]
-            if cf:
-                sel = cf[0][vs[0]] if len(vs) == 1 else None
-                if sel is not None:
-                    lifted_defs.append(z3.ForAll([i_] + vs, sel == gen(bd), patterns=[sel]))
+    for nm_, (vs, bd) in list(smt.DEFS.items()):
+        c = body_by_name.get(nm_)
+        if c is not None and len(vs) == 1:
+            sel = gen(c)[vs[0]]
+            lifted_defs.append(z3.ForAll([i_] + vs, sel == gen(bd), patterns=[sel]))
     base = len(sti.pc)
     normal = [e for e in ends if e[0] == 'ok']
     raising = [e for e in ends if e[0] == 'raise']
@@ -448,8 +455,7 @@ def summarise(run, dom, body, where='', collect=False, parallel=None):
         if not full:
             (pk, ppayload, pst, ppctx, penv), (pB, pA) = partial
             post.assume(gen(z3.And(pB, pA), upto))
-        if inv is not None and full:
-            inv.check_and_assume(run, sti, normal, nguards, carried, ik, n, gen, i_)
+
         # indexed maps / lists
         for loc, cols in indexed.items():
             o0 = st0_heap[loc]
@@ -531,7 +537,7 @@ def summarise(run, dom, body, where='', collect=False, parallel=None):
                 cnd, g, others = ccf
                 jj = bound('jit', Int)
                 arrs = [z3.Lambda([jj], z3.substitute(o, (ik, jj))) for o in [cnd] + others]
-                it_g = F('iterx_if_' + g.name(), init.sort(), Int, *[a.sort() for a in arrs], init.sort())
+                it_g = smt.iterx_fn('iterx_if_' + g.name(), init.sort(), [a.sort() for a in arrs])
                 post.assume(z3.ForAll([i_], z3.Implies(i_ >= 0, itf(i_) == it_g(init, i_, *arrs)), patterns=[itf(i_)]))
                 run.note('rule:iterated-conditional-function ' + g.name())
             cf = _closed_form(v, itf, ik, body_consts)
@@ -541,7 +547,7 @@ def summarise(run, dom, body, where='', collect=False, parallel=None):
                 g, others = cf
                 jj = bound('jit', Int)
                 arrs = [z3.Lambda([jj], z3.substitute(o, (ik, jj))) for o in others]
-                it_g = F('iterx_' + g.name(), init.sort(), Int, *[a.sort() for a in arrs], init.sort())
+                it_g = smt.iterx_fn('iterx_' + g.name(), init.sort(), [a.sort() for a in arrs])
                 post.assume(z3.ForAll([i_], z3.Implies(i_ >= 0, itf(i_) == it_g(init, i_, *arrs)), patterns=[itf(i_)]))
                 run.note('rule:iterated-function ' + g.name())
             final = itf(upto) if full else gen(get(pst, penv), upto)
@@ -570,6 +576,8 @@ def summarise(run, dom, body, where='', collect=False, parallel=None):
 
     st0_heap = dict(st0.heap)
     build(run.st, n, None)        # continue in the pre-loop state object (it is ours)
+    if inv is not None:
+        inv.assume_at(run, run.st, run.frames[-1].env)
     # a raise in iteration k: the function is left from the state after k complete iterations plus the partial one
     for e, g in zip(ends, guards):
         if e[0] == 'raise':
